@@ -458,6 +458,79 @@ func init() {
 		return &StrV{T: r}
 	}
 	models["strings.Split"] = func(it *Interp, a []Val) Val { return it.strSplit(a[0].(*StrV), a[1].(*StrV)) }
+	// byte-level models over structured strings with a concrete second operand
+	idx := func(last bool) modelFn {
+		return func(it *Interp, a []Val) Val {
+			s, sep := a[0].(*StrV), a[1].(*StrV)
+			cs, okS := s.concreteString()
+			csep, okSep := sep.concreteString()
+			if okS && okSep {
+				if last {
+					return BVi(64, int64(strings.LastIndex(cs, csep)))
+				}
+				return BVi(64, int64(strings.Index(cs, csep)))
+			}
+			if !isPlainB(s) || !okSep {
+				it.fail("strings.Index/LastIndex needs a structured string and a concrete separator")
+			}
+			m := len(csep)
+			n := len(s.Bytes)
+			try := func(i int) bool {
+				e := TTrue
+				for j := 0; j < m; j++ {
+					e = And(e, Eq(s.Bytes[i+j], BVu(8, uint64(csep[j]))))
+				}
+				return it.p.branch(e)
+			}
+			if last {
+				for i := n - m; i >= 0; i-- {
+					if try(i) {
+						return BVi(64, int64(i))
+					}
+				}
+			} else {
+				for i := 0; i+m <= n; i++ {
+					if try(i) {
+						return BVi(64, int64(i))
+					}
+				}
+			}
+			return BVi(64, -1)
+		}
+	}
+	models["strings.Index"] = idx(false)
+	models["strings.LastIndex"] = idx(true)
+	trim := func(left, right bool) modelFn {
+		return func(it *Interp, a []Val) Val {
+			s, cut := a[0].(*StrV), a[1].(*StrV)
+			ccut, ok := cut.concreteString()
+			if !ok || !isPlainB(s) {
+				it.fail("strings.Trim* with a cutset needs a structured string and a concrete cutset")
+			}
+			in := func(b *Term) bool {
+				e := TFalse
+				for i := 0; i < len(ccut); i++ {
+					e = Or(e, Eq(b, BVu(8, uint64(ccut[i]))))
+				}
+				return it.p.branch(e)
+			}
+			lo, hi := 0, len(s.Bytes)
+			if left {
+				for lo < hi && in(s.Bytes[lo]) {
+					lo++
+				}
+			}
+			if right {
+				for hi > lo && in(s.Bytes[hi-1]) {
+					hi--
+				}
+			}
+			return &StrV{Bytes: s.Bytes[lo:hi:hi], IsB: true}
+		}
+	}
+	models["strings.TrimRight"] = trim(false, true)
+	models["strings.TrimLeft"] = trim(true, false)
+	models["strings.Trim"] = trim(true, true)
 	models["strings.Join"] = func(it *Interp, a []Val) Val {
 		parts := sliceArgs(a[0])
 		sep := a[1].(*StrV)
